@@ -135,7 +135,84 @@ def build(features=()):
         else:
             build_gen(u, cr, name, g)
         u.raw('}')
+    u.lemma_file(never_zero_lemmas(), 'C08', prefix='xoshiro.')
     return u
+
+
+def never_zero_lemmas():
+    """C08: no seeding path of a linear generator yields the all-zero state.  Every path ends in from_seed_v(b) for a
+    byte string b of the seed length (from_seed directly; seed_from_u64 via the SplitMix64 expansion; rand_core's default
+    from_rng / try_from_rng via the bytes drawn), so one lemma per generator suffices."""
+    t = '''pub mod never_zero {
+use vstd::prelude::*;
+use crate::shims::*;
+use crate::rand_core::*;
+use crate::rand_core::le::*;
+use crate::spec::*;
+use crate::splitmix64::SplitMix64;
+
+pub proof fn lemma_mix64_phi()
+    ensures mix64(add64(0, PHI_REF())) == 0xe220a8397b1dcdafu64
+{
+    assert(mix64(add64(0u64, 0x9e3779b97f4a7c15u64)) == 0xe220a8397b1dcdafu64) by (compute_only);
+}
+pub proof fn lemma_le64_nonzero(w: u64)
+    requires w != 0
+    ensures !all_zero(le64(w))
+{
+    lemma_le64_roundtrip(w);
+    lemma_from_le64_zero(le64(w));
+}
+// the SplitMix64 expansion of 0 starts with the LE bytes of mix64(0 + PHI) != 0
+pub proof fn lemma_splitmix0_not_all_zero(n: nat)
+    requires n >= 8
+    ensures !all_zero(fill_via_next::<SplitMix64>(0, n).0), fill_via_next::<SplitMix64>(0, n).0.len() == n
+{
+    lemma_fill_len::<SplitMix64>(0, n);
+    lemma_mix64_phi();
+    let w = mix64(add64(0, PHI_REF()));
+    let b = fill_via_next::<SplitMix64>(0, n).0;
+    lemma_fill_head::<SplitMix64>(0, n);
+    assert(b.subrange(0, 8) =~= le64(w));
+    lemma_le64_nonzero(w);
+    if all_zero(b) {
+        assert forall |i: int| 0 <= i < le64(w).len() implies le64(w)[i] == 0 by { assert(le64(w)[i] == b.subrange(0, 8)[i]); assert(b[i] == 0); }
+    }
+}
+pub proof fn lemma_fill_head<R: RngView>(v: R::V, n: nat)
+    requires n >= 8
+    ensures fill_via_next::<R>(v, n).0.subrange(0, 8) =~= le64(R::s64(v).0)
+{
+    reveal_with_fuel(fill_via_next, 2);
+    lemma_le64_len(R::s64(v).0);
+}
+pub proof fn lemma_le64_len(w: u64) ensures le64(w).len() == 8 { }
+pub proof fn lemma_fill_len<R: RngView>(v: R::V, n: nat)
+    ensures fill_via_next::<R>(v, n).0.len() == n
+    decreases n
+{
+    reveal_with_fuel(fill_via_next, 2);
+    if n >= 8 { lemma_fill_len::<R>(R::s64(v).1, (n - 8) as nat); }
+}
+'''
+    for name, g in GENS.items():
+        if g.get('kind') == 'splitmix':
+            continue
+        n, w, nw = g['seed'], g['w'], g['nw']
+        t += '''
+pub proof fn lemma_%s_never_zero(b: Seq<u8>)
+    requires b.len() == %d
+    ensures exists |i: int| 0 <= i < %d && #[trigger] <crate::%s::%s as SeedView>::from_seed_v(b)[i] != 0
+{
+    let sm = fill_via_next::<SplitMix64>(0, %d).0;
+    lemma_splitmix0_not_all_zero(%d);
+    lemma_words%d_zero(b); lemma_words%d_zero(sm);
+    let v = <crate::%s::%s as SeedView>::from_seed_v(b);
+    if all_zero(b) { assert(v == words%d(sm)); } else { assert(v == words%d(b)); }
+}
+''' % (name.lower(), n, nw, g['mod'], name, n, n, w, w, g['mod'], name, w, w)
+    t += '}\n'
+    return t
 
 
 def build_splitmix(u, cr, name, g):
@@ -159,23 +236,23 @@ impl SeedView for SplitMix64 {
 }''')
     rp = mod + '::RngCore@SplitMix64'
     u.impl(cr, rp, header='impl Next32 for SplitMix64', fns=['next_u32'], contracts={
-        'next_u32': Fn(None, ret='r', builtin_props='C14', trait_props='C05', ensures=[
+        'next_u32': Fn(None, ret='r', builtin_props='C14 C18', trait_props='C05', ensures=[
             C('splitmix64.next_u32.out', 'C01 C05', 'r == mix32(add64(old(self).x, PHI_REF()))'),
             C('splitmix64.next_u32.state', 'C01 C05 C10', 'final(self).x == add64(old(self).x, PHI_REF())')])})
     u.impl(cr, rp, header='impl Next64 for SplitMix64', fns=['next_u64'], contracts={
-        'next_u64': Fn(None, ret='r', builtin_props='C14', trait_props='C05', ensures=[
+        'next_u64': Fn(None, ret='r', builtin_props='C14 C18', trait_props='C05', ensures=[
             C('splitmix64.next_u64.out', 'C01 C05', 'r == mix64(add64(old(self).x, PHI_REF()))'),
             C('splitmix64.next_u64.state', 'C01 C05 C10', 'final(self).x == add64(old(self).x, PHI_REF())')])})
     u.impl(cr, rp, header='impl Fill for SplitMix64', fns=['fill_bytes'], contracts={
-        'fill_bytes': Fn(None, builtin_props='C14', trait_props='C05')})
+        'fill_bytes': Fn(None, builtin_props='C14 C18', trait_props='C05')})
     sp = mod + '::SeedableRng@SplitMix64'
     u.impl(cr, sp, header='impl SeedableRng for SplitMix64', keep=['type Seed'], extra='''
     open spec fn seed_bytes(s: [u8; 8]) -> Seq<u8> { s@ }
 ''', fns=['from_seed', 'seed_from_u64'], contracts={
-        'from_seed': Fn(None, ret='r', builtin_props='C14', trait_props='C01 C09',
+        'from_seed': Fn(None, ret='r', builtin_props='C14 C18', trait_props='C01 C09',
                         ensures=[C('splitmix64.from_seed.le', 'C01 C09', 'r.x == from_le64(seed@)')],
                         inserts=[after(lit('read_u64_into(&seed, &mut state);'), 'proof { assert(seed@.subrange(0, 8) =~= seed@); }')]),
-        'seed_from_u64': Fn(None, ret='r', builtin_props='C14', trait_props='C01 C09',
+        'seed_from_u64': Fn(None, ret='r', builtin_props='C14 C18', trait_props='C01 C09',
                             ensures=[C('splitmix64.seed_from_u64.id', 'C01 C09', 'r.x == seed')],
                             inserts=[entry('proof { lemma_le64_roundtrip(seed); }')]),
     })
@@ -185,12 +262,12 @@ impl SeedView for SplitMix64 {
 def derived(u, cr, mod, name, g, eq_expr, clone_post):
     """Derived Clone / PartialEq as printed by rustc (C10)."""
     u.impl(cr, mod + '::Clone@' + name, header='impl Clone for ' + name, fns=['clone'], contracts={
-        'clone': Fn(None, ret='r', builtin_props='C14', ensures=[C('%s.clone.all_fields' % name.lower(), 'C10', clone_post)])})
+        'clone': Fn(None, ret='r', builtin_props='C14 C18', ensures=[C('%s.clone.all_fields' % name.lower(), 'C10', clone_post)])})
     u.raw('impl vstd::std_specs::cmp::PartialEqSpecImpl for %s {\n'
           '    open spec fn obeys_eq_spec() -> bool { true }\n'
           '    open spec fn eq_spec(&self, other: &%s) -> bool { %s }\n}' % (name, name, eq_expr))
     u.impl(cr, mod + '::PartialEq@' + name, header='impl PartialEq for ' + name, fns=['eq'], contracts={
-        'eq': Fn(None, ret='r', builtin_props='C14', trait_props='C10', ensures=[
+        'eq': Fn(None, ret='r', builtin_props='C14 C18', trait_props='C10', ensures=[
             C('%s.eq.iff_all_fields' % name.lower(), 'C10', 'r == (%s)' % eq_expr.replace('self.', 'self.'))])})
     u.skip(mod + '::Debug@' + name + '::fmt', 'derived Debug; no claimed property depends on it')
     u.skip(mod + '::Eq@' + name + '::assert_fields_are_eq', 'compile-time marker, empty body')
@@ -211,7 +288,7 @@ def build_gen(u, cr, name, g):
     native = 'next_u64' if W == 64 else 'next_u32'
     tailproof = Insert('tail', None, 'proof { assert(@0@); }', clauses=[
         C('%s.%s.state_words' % (low, native), 'C01 C05 C06 C10', '%s =~= %s_next(%s)' % (view_self, eng, view_old))])
-    native_fc = Fn(None, ret='r', builtin_props='C14', trait_props='C05', ensures=[
+    native_fc = Fn(None, ret='r', builtin_props='C14 C18', trait_props='C05', ensures=[
         C('%s.%s.out' % (low, native), 'C01 C05', 'r == %s_out(%s)' % (low, view_old)),
         C('%s.%s.state' % (low, native), 'C01 C05 C06 C10', '%s =~= %s_next(%s)' % (view_fin, eng, view_old))],
         inserts=[tailproof])
@@ -219,18 +296,18 @@ def build_gen(u, cr, name, g):
     if W == 64:
         half = g['half']
         proj = '(%s_out(%s) >> 32u64) as u32' % (low, view_old) if half == 'upper' else '%s_out(%s) as u32' % (low, view_old)
-        other_fc = Fn(None, ret='r', builtin_props='C14', trait_props='C05', ensures=[
+        other_fc = Fn(None, ret='r', builtin_props='C14 C18', trait_props='C05', ensures=[
             C('%s.next_u32.half' % low, 'C05', 'r == %s' % proj),
             C('%s.next_u32.one_step' % low, 'C05 C10', '%s =~= %s_next(%s)' % (view_fin, eng, view_old))])
         u.impl(cr, rp, header='impl Next64 for ' + name, fns=['next_u64'], contracts={'next_u64': native_fc})
         u.impl(cr, rp, header='impl Next32 for ' + name, fns=['next_u32'], contracts={'next_u32': other_fc})
     else:
-        other_fc = Fn(None, ret='r', builtin_props='C14', trait_props='C05', ensures=[
+        other_fc = Fn(None, ret='r', builtin_props='C14 C18', trait_props='C05', ensures=[
             C('%s.next_u64.via_u32' % low, 'C05', 'r == via_u32::<Self>(%s).0' % view_old),
             C('%s.next_u64.two_steps' % low, 'C05 C10', '%s =~= %s_next(%s_next(%s))' % (view_fin, eng, eng, view_old))])
         u.impl(cr, rp, header='impl Next32 for ' + name, fns=['next_u32'], contracts={'next_u32': native_fc})
         u.impl(cr, rp, header='impl Next64 for ' + name, fns=['next_u64'], contracts={'next_u64': other_fc})
-    u.impl(cr, rp, header='impl Fill for ' + name, fns=['fill_bytes'], contracts={'fill_bytes': Fn(None, builtin_props='C14', trait_props='C05')})
+    u.impl(cr, rp, header='impl Fill for ' + name, fns=['fill_bytes'], contracts={'fill_bytes': Fn(None, builtin_props='C14 C18', trait_props='C05')})
 
     # ---- seeding -----------------------------------------------------------------------------------
     n = g['seed']
@@ -245,12 +322,12 @@ def build_gen(u, cr, name, g):
         src = '&seed.0' if g.get('seed512') else '&seed'
         fs_ins.append(after(lit('read_u%d_into(%s, &mut state);' % (W, src)),
                             'proof { assert(state@ =~= %s(%s)); }' % (words, seedbytes)))
-    from_seed = Fn(None, ret='r', builtin_props='C14', trait_props='C08 C09', ensures=[
+    from_seed = Fn(None, ret='r', builtin_props='C14 C18', trait_props='C08 C09', ensures=[
         C('%s.from_seed.zero_remapped' % low, 'C08', 'all_zero(%s) ==> r.v() == Self::seed_from_u64_v(0)' % seedbytes),
         C('%s.from_seed.verbatim_le' % low, 'C01 C08', '!all_zero(%s) ==> r.v() == %s(%s)' % (seedbytes, words, seedbytes))],
         inserts=fs_ins,
         dialect=[d11_seed512] if g.get('seed512') else [])
-    seed_from_u64 = Fn(None, ret='r', builtin_props='C14', trait_props='C08 C09', ensures=[
+    seed_from_u64 = Fn(None, ret='r', builtin_props='C14 C18', trait_props='C08 C09', ensures=[
         C('%s.seed_from_u64.splitmix_expansion' % low, 'C08 C09', 'r.v() == Self::from_seed_v(%s(seed, %d).0)' % (sm, n))])
     sp = mod + '::SeedableRng@' + name
     u.impl(cr, sp, header='impl SeedableRng for ' + name, keep=['type Seed'], extra=gen_spec_impls_seed(name, g),
@@ -343,6 +420,6 @@ def jump_contract(name, g, jn):
         before(lit('if (*j & 1 << b) != 0'), bitproof),
         after(lit('self.%s();' % native), stepproof),
     ]
-    return Fn(None, builtin_props='C14', ensures=[
+    return Fn(None, builtin_props='C14 C18', ensures=[
         C(pre + '.poly', 'C06', '%s =~= %s(%s, %s, %s, %d)' % (view_fin, poly, tfn, jref, view_old, n))],
         loops={0: outer, 1: inner}, inserts=ins)
